@@ -1,7 +1,7 @@
 ----------------------------- MODULE MC_PdbReader -----------------------------
 (* Bounded instance of PdbReader for model checking and case emission.      *)
 EXTENDS Naturals, Integers, Sequences, TLC, Json
-CONSTANTS MaxLen, BlankStops, EndEmptyRaises, DropWaterChoices, Emit
+CONSTANTS MaxLen, BlankStops, EndEmptyRaises, GluedKeepsWater, DropWaterChoices, Emit
 VARIABLES dw, file, errs, pdblist, stopped, pc, res
 
 (***************************************************************************)
@@ -24,6 +24,8 @@ MCAlphabet == <<
   A(FALSE, "",  -1, "",  "N",  "",  "ALA", "full"),   \*  7  blank chain, negative number
   A(TRUE,  "A",  3, "",  "O",  "",  "HOH", "full"),   \*  8  water
   A(TRUE,  "A",  4, "",  "C1", "",  "LIG", "cut66"),  \*  9  hetero group
+  A(FALSE, "A",  1, "",  "CB", "B", "ALA", "full"),   \* 10  atom present only under the second alt-loc label
+  A(TRUE,  "B",  7, "",  "O",  "",  "HOH", "wide"),   \* 11  water whose serial number fills all five columns
   O("ter"), O("end"), O("model"), O("endmdl"), O("blank"), O("unknown"), O("remark")
 >>
 R == INSTANCE PdbReader WITH Alphabet <- MCAlphabet
